@@ -257,7 +257,8 @@ theorem fwdEnd_fields (env : Env) (cal : Cal) (used : Int → Rat) (t : Uid) (σ
       · rename_i v hv
         obtain ⟨e, rows⟩ := v
         cases h
-        refine ⟨maxT (maxT e (now env (addRows (now env σ).2 (env.info t).resource t rows)).1)
+        refine ⟨maxT (if env.bound < (now env (addRows (now env σ).2 (env.info t).resource t rows)).1
+            then maxT e (now env (addRows (now env σ).2 (env.info t).resource t rows)).1 else e)
           ((σ.f t).start.getD epoch), ?_, ?_, ?_, ?_⟩
         · rw [setF_f_same]; rfl
         · intro s1 h1; rw [he0] at h1; cases h1
